@@ -330,13 +330,13 @@ void ThreadPool::resizeLocked(ssize_t sn) {
   for (size_t i = 0; i < rings_.size(); ++i) {
     OnceFunction task;
     while (rings_[i].try_pop(task)) {
-      task();
+      executeNext(std::move(task));
     }
   }
   for (size_t i = 0; i < stealRings_.size(); ++i) {
     OnceFunction task;
     while (stealRings_[i].try_pop(task)) {
-      task();
+      executeNext(std::move(task));
     }
   }
 
